@@ -253,6 +253,9 @@ class CreateFromOp(clib.Op):
         for src in ('binary-other', 'with-enzyme', 'ternary'):
             out.append(('substance', ('mol', 'L'), 'mL', src))
             out.append(('substance', ('g', 'g'), 'g', src))
+        # an enzyme rides along in the stock and the request is mole-based (enzymes are stored in U and carry no moles)
+        out.append(('substance', ('mol', 'mol'), 'mol', 'with-enzyme'))
+        out.append(('substance', ('mol', 'L'), 'mol', 'with-enzyme'))
         out.append(('container', ('mol', 'L'), 'mL', 'binary'))
         out.append(('container-with-solute', ('mol', 'L'), 'mL', 'binary'))
         out.append(('container-with-solute', ('L', 'L'), 'mL', 'binary'))      # volume numerator + a solvent container holding the solute
